@@ -212,9 +212,10 @@ CHECKS = {
         "technique": "property-based testing (rapid) in testing/synctest bubbles; order/gauge/error-provenance oracle",
         "rule": ("kinds map-iterator, map-stream (scripted bubble plans) and map-storm (5000-40000 zero-latency items per case in a bubble, every (parallelism, buffer) shape; non-trivial = parallelism >= 2) and map-finish-storm (0-3 items, 4-64 workers that all finish at the same instant, 300-1500 rounds per case). scripted plans (a failing f may return an error that wraps a context error; a source may block, idle, until its context ends): non-trivial = completion order differed from source order AND the gauge reached its bound (back-pressure engaged), or a failure surfaced with results still in flight; distinct = distinct plan JSON; R=3/10"),
         "assumptions": ["testing/synctest", "rapid v1.3.0; go1.26.8"],
-        "jobs": [{"pkg": "c14mapit", "kinds": ["map-iterator", "map-stream", "map-storm", "map-finish-storm"], "scale_thorough": 8, "shards_thorough": 16, "replay_reps": 30},
-                 {"pkg": "c14mapit", "goarch": "386", "kinds": ["map-iterator", "map-stream", "map-storm", "map-finish-storm"], "scale_quick": 0.1, "scale_thorough": 1, "shards_thorough": 2},
-                 {"pkg": "c14mapit", "race": True, "kinds": ["map-iterator", "map-stream", "map-storm", "map-finish-storm"], "scale_quick": 0.1, "scale_thorough": 2, "shards_thorough": 4, "replay_reps": 20}],
+        "jobs": [{"pkg": "c14mapit", "run": "TestMapLockstepSource", "kinds": ["map-lockstep"], "scale_thorough": 4, "shards_thorough": 2},
+                 {"pkg": "c14mapit", "run": "TestMapIterator|TestMapStream|TestMapStorm|TestMapFinishStorm", "kinds": ["map-iterator", "map-stream", "map-storm", "map-finish-storm"], "scale_thorough": 8, "shards_thorough": 16, "replay_reps": 30},
+                 {"pkg": "c14mapit", "goarch": "386", "run": "TestMapIterator|TestMapStream|TestMapStorm|TestMapFinishStorm", "kinds": ["map-iterator", "map-stream", "map-storm", "map-finish-storm"], "scale_quick": 0.1, "scale_thorough": 1, "shards_thorough": 2},
+                 {"pkg": "c14mapit", "race": True, "run": "TestMapIterator|TestMapStream|TestMapStorm|TestMapFinishStorm", "kinds": ["map-iterator", "map-stream", "map-storm", "map-finish-storm"], "scale_quick": 0.1, "scale_thorough": 2, "shards_thorough": 4, "replay_reps": 20}],
     },
     "C18": {
         "level": "exploration",
